@@ -1,4 +1,7 @@
+//! C01 — parsing and traversing untrusted font bytes never panics or hangs; observations are a pure
+//! function of the bytes. See DESIGN.md §3 C01; the engine lives in the `c01` library (reused by C20).
+use c01::engine::{engine_main, EngineConfig, Mode};
+
 fn main() {
-    println!("types={} skipped={} blobs={}", c01::registry::TYPES.len(), c01::registry::TYPES_SKIPPED.len(), c01::registry::STATIC_BLOBS.len());
-    for (n, w) in c01::registry::TYPES_SKIPPED { println!("skipped {n}: {w}"); }
+    engine_main(EngineConfig { property: "C01", mode: Mode::C01, extra: vec![] })
 }
